@@ -44,7 +44,7 @@ import pandas as pd
 from hypothesis import strategies as st
 
 from vf import redcommon as R
-from vf.learners import ExactTable
+from vf.learners import ExactTable, ExactTableW
 from vf.runner import PropertyViolation, Skip, Sub
 
 PROPERTY = "C08"
@@ -78,9 +78,11 @@ def _fit(case):
     X = R.build_X(case)
     y = R.build_vector(case, case["y_kind"], case["y"])
     sf = R.build_vector(case, case["sf_kind"], R.group_labels(case))
+    swn = bool(case.get("swn"))
     eg = ExponentiatedGradient(
-        ExactTable(tie=case.get("tie", 0)),
+        (ExactTableW if swn else ExactTable)(tie=case.get("tie", 0)),
         R.build_moment(case),
+        **({"sample_weight_name": "w"} if swn else {}),
         eps=case["eps"],
         max_iter=case["max_iter"],
         nu=case["nu"],
